@@ -115,7 +115,7 @@ let handle fields impl : string option * string list =
          if Util.bytes_of_hex h <> body then ["findcontent-wrong-bytes asker-returns-bytes-that-are-not-the-reply-payload"] else []
        | _ -> []) in
     (Some m, mons)
-  | ["uc"; own; pv; op; h] ->
+  | ["uc"; own; pv; op; h; _] ->   (* last field: an older record of the peer in the table - irrelevant, the record in hand decides *)
     (* stream framing including the version lookup on the peer's record (C19's model of getOrStoreHighestVersion, empty cache) *)
     let vs str = List.map (fun ch -> n_ (Char.code ch - 48)) (List.init (String.length str) (String.get str)) in
     let entry = (match pv with "M" -> PvMissing | "X" -> PvMalformed | "E" -> PvList [] | str -> PvList (vs str)) in
